@@ -72,7 +72,15 @@ func taskList(ts []*sim.Task) []string {
 func runC15(t *testing.T, tape *sim.Tape, tier string) *Outcome {
 	o := &Outcome{}
 	cl := newCluster(tape, o)
-	cl.useServer(wl.NewRefStore())
+	tlsOn := tape.Draw(2, "tlsport") == 1
+	pk := wl.GetPKI()
+	if tlsOn {
+		setupTLSServer(cl, 0, wl.NewRefStore())
+		o.stat("runs_with_tls_port", 1)
+	} else {
+		cl.useServer(wl.NewRefStore())
+	}
+	tlsAddr := addrOf(tlsPort)
 	for _, y := range lifecycleYields {
 		cl.YieldOn[y] = tape.Draw(4, "yield:"+y) != 0
 	}
@@ -108,6 +116,16 @@ func runC15(t *testing.T, tape *sim.Tape, tier string) *Outcome {
 		}
 	}
 
+	if tlsOn {
+		for j := tape.Draw(3, "ntlsclients"); j > 0; j-- {
+			tc := cl.addTLSClient(fmt.Sprintf("tcli%d", j), tlsAddr, pk.ClientConfig(pk.Right), [][]byte{resp.Cmd("PING")})
+			tc.KeepOpen = tape.Draw(2, "keepopen") == 1
+			tc.Chunk = tape.Draw(3, "chunkmode")
+			if tape.Draw(4, "stall") == 0 {
+				tc.Fault = "stall" // a client stuck in its handshake while the lifecycle calls run
+			}
+		}
+	}
 	running := false // a Start/Restart returned nil and no Stop has been called since
 	opsSeen := 0     // completed ops already evaluated
 	inOp := false    // a lifecycle call is in progress
@@ -133,6 +151,13 @@ func runC15(t *testing.T, tape *sim.Tape, tier string) *Outcome {
 		}
 		probes++
 		o.stat("probes_running", 1)
+		if tlsOn && len(o.Viol) == 0 {
+			pc := cl.probeTLS(fmt.Sprintf("tprobe%d", probes), tlsAddr, pk.ClientConfig(pk.Right), [][]byte{resp.Cmd("PING")}, 1200)
+			if len(pc.Vals) < 1 || !pc.Vals[0].Equal(resp.St("PONG")) {
+				o.violate("c15:running-server-not-serving-tls", "%s: a fresh TLS client cannot get PONG on the TLS port (refused=%t handshake err=%v io err=%v); lifecycle %s; parked %v", when, pc.Refused, pc.HandshakeErr, pc.IOErr, hist(), taskList(cl.S.Parked()))
+			}
+			o.stat("probes_running_tls", 1)
+		}
 	}
 	checkRegistry := func(when string) {
 		reg := registryPipes(cl)
@@ -164,6 +189,9 @@ func runC15(t *testing.T, tape *sim.Tape, tier string) *Outcome {
 	checkStopped := func(when string) {
 		if l := cl.N.Bound(addr); l != nil {
 			o.violate("c15:port-still-bound-after-stop", "%s: the plain port is still bound by L%d after Stop returned; lifecycle %s", when, l.ID, hist())
+		}
+		if l := cl.N.Bound(tlsAddr); l != nil {
+			o.violate("c15:port-still-bound-after-stop", "%s: the TLS port is still bound by L%d after Stop returned; lifecycle %s", when, l.ID, hist())
 		}
 		if open := cl.N.OpenServerEnds(); len(open) > 0 {
 			o.violate("c15:connection-survives-stop", "%s: accepted connections %v are still open after Stop returned; lifecycle %s; parked %v", when, open, hist(), taskList(cl.S.Parked()))
@@ -306,10 +334,10 @@ func runC15(t *testing.T, tape *sim.Tape, tier string) *Outcome {
 func init() {
 	register(&Check{
 		ID: "C15", Bubble: true, Run: runC15,
-		Runs:   map[string]int{"quick": 30000, "thorough": 1000000},
+		Runs: map[string]int{"quick": 16000, "thorough": 1000000},
 		Rule:   "a case is one run: a lifecycle task executing 1..6 drawn calls from {Start, Stop, Restart} (ill-ordered sequences included), 0..4 clients that dial, PING, idle, close or reset at drawn moments, and the accept loops and connection goroutines the server spawns, interleaved by the seeded scheduler at simulated Listen/Accept/Read and at the tagged yield points (start.opened, stop.mid, stop.closed, accept.entry, accept.exit, conn.register, conn.deregister; each enabled per run by the swarm); half of the runs hold a drawn set of server tasks parked until the call in progress has returned; after each call returns the system is drained and the promised state is probed (dial+PING; bind probe, closed sockets, parked tasks, goroutine profile, registry); distinct = distinct event-log hashes",
 		Real:   []string{"redis.Server Start/Stop/Restart/open/close, accept loops, connection goroutines, ConnManager"},
 		Stub:   []string{"network: simulated listeners (EADDRINUSE while bound) and connections", "handler: reference store"},
-		Assume: []string{"a goroutine that is merely not scheduled yet is not a leak: leaks are judged after draining every enabled task", "plain port only in this check (the TLS accept loop runs under C09/C19)"},
+		Assume: []string{"a goroutine that is merely not scheduled yet is not a leak: leaks are judged after draining every enabled task", "half of the runs enable the TLS port as well (real crypto/tls clients, some stalled in their handshake)"},
 	})
 }
